@@ -232,21 +232,34 @@ LaunchOK(cfg, c, P, it, o) ==
 TypeOK4Claim(cfg, c, P, itn) ==
     KnownType(cfg, itn) /\ LET it == TypeByName(cfg, itn) IN \E i \in DOMAIN it.offerings : LaunchOK(cfg, c, P, it, it.offerings[i])
 ClaimPods(cfg, c) == {PodByKey(cfg, k) : k \in Range(c.pods)}
+(* The instance types the NodeClaim "may be launched as".  Normally every    *)
+(* remaining option must be launchable.  Once FinalizeScheduling has PINNED  *)
+(* the claim to reserved capacity (capacity-type = reserved, reservation id  *)
+(* in the held ids) Karpenter deliberately leaves the option list alone and  *)
+(* lets the provider skip the options that have no such offering, so for a   *)
+(* pinned claim only the options with a compatible available offering count  *)
+(* (and there must be one).                                                  *)
+Pinned(c) == c.reserved # <<>>
+HasCompatOffering(cfg, c, P, itn) ==
+    KnownType(cfg, itn) /\ LET it == TypeByName(cfg, itn) IN
+                            \E i \in DOMAIN it.offerings : LaunchParts(cfg, c, P, it, it.offerings[i]).offering
+LaunchTypes(cfg, c, P) == IF Pinned(c) THEN {itn \in Range(c.its) : HasCompatOffering(cfg, c, P, itn)} ELSE Range(c.its)
 G_C01_Claim(cfg, c) ==
     LET P == ClaimPods(cfg, c) IN
     /\ \A p \in P : TaintsTolerated(p.tol, c.taints)
-    /\ c.its # <<>>
-    /\ \A itn \in Range(c.its) : TypeOK4Claim(cfg, c, P, itn)
+    /\ LaunchTypes(cfg, c, P) # {}
+    /\ \A itn \in LaunchTypes(cfg, c, P) : TypeOK4Claim(cfg, c, P, itn)
 SigClaim(cfg, c) ==
-    LET P == ClaimPods(cfg, c) IN
+    LET P == ClaimPods(cfg, c)
+        pin == IF Pinned(c) THEN ":reserved-pinned" ELSE "" IN
     IF ~\A p \in P : TaintsTolerated(p.tol, c.taints) THEN "taint"
-    ELSE IF c.its = <<>> THEN "no-instance-type"
-    ELSE LET bad == CHOOSE itn \in Range(c.its) : ~TypeOK4Claim(cfg, c, P, itn) IN
+    ELSE IF LaunchTypes(cfg, c, P) = {} THEN "no-instance-type" \o pin
+    ELSE LET bad == CHOOSE itn \in LaunchTypes(cfg, c, P) : ~TypeOK4Claim(cfg, c, P, itn) IN
          IF ~KnownType(cfg, bad) THEN "unknown-type"
          ELSE LET it == TypeByName(cfg, bad)
                   parts == {LaunchParts(cfg, c, P, it, it.offerings[i]) : i \in DOMAIN it.offerings}
               IN IF ~\E x \in parts : x.offering THEN "no-compatible-available-offering"
-                 ELSE IF ~\E x \in parts : x.offering /\ x.fit THEN "resources"
+                 ELSE IF ~\E x \in parts : x.offering /\ x.fit THEN "resources" \o pin
                  ELSE IF ~\E x \in parts : x.offering /\ x.fit /\ x.labels
                       THEN (IF \E p \in P : ~Satisfiable(cfg, p) THEN "labels:unsatisfiable-pod" ELSE "labels")
                  ELSE "hostport"
